@@ -85,7 +85,7 @@ func c18PipeErrName(err error) string {
 		return "builder"
 	case errors.Is(err, errRetryableWithUnReplayableBody):
 		return "unreplay"
-	case errors.Is(err, errDigestBadChallenge):
+	case errors.Is(err, errDigestBadChallenge), errors.Is(err, errDigestUnreplayable):
 		return "digest"
 	}
 	var ue *url.Error
